@@ -73,3 +73,29 @@ pub fn explore(space: &SrvSpace, start: Vec<Ev>, filter: &(dyn Fn(&[Ev], &Ev) ->
     }
     out
 }
+
+/// Determinism self-test of E4: the same walk executed twice must give the same history, the same
+/// outputs and the same number of MPC messages; a different seed must still give the same results.
+pub fn selftest(seed: u64) -> Result<(), String> {
+    use crate::srv::{MsgPolicy, Walk, comp_id, make_policies, run_walk};
+    let (sp, _) = crate::checks::c13::spec(2, 0, &[1], vec![true, true]);
+    let pols = vec![make_policies(&sp, comp_id(seed, 4242))];
+    let run = |s: u64| run_walk(2, 1, pols.clone(), Walk { max_steps: 10_000, ..Default::default() }, MsgPolicy::Explicit, s);
+    let a = run(seed)?;
+    let b = run(seed)?;
+    let sig = |r: &crate::srv::WalkResult| {
+        (
+            r.history.clone(),
+            r.snapshot.outputs.iter().map(|o| (o.party, o.result.clone())).collect::<Vec<_>>(),
+            r.snapshot.msgs_delivered,
+            r.snapshot.canonical,
+        )
+    };
+    if sig(&a) != sig(&b) {
+        return Err("two executions of the same server walk differ".into());
+    }
+    if a.snapshot.outputs.len() != 2 || a.snapshot.outputs.iter().any(|o| o.result.is_err()) {
+        return Err(format!("selftest walk did not produce two results: {:?}", a.snapshot.outputs));
+    }
+    Ok(())
+}
